@@ -309,6 +309,23 @@ DUPLOCK_THOROUGH = ["scn udp 16 0 0 arrivem:1:n1:con:+7000 dup:1&sep:1 sleep:310
                     "scn udp 0 0 0 arrivem:1:w1:con:+7000 dup:1&dup:1&ack:1 sleep:31000 settle"]
 
 
+def monitor_family(rng=None):
+    """A request monitor that drops some messages (the harness's drops DELETE) on a connection: a dropped message and a request
+    right behind it — on the stream transport in the same write; the request is a message like any other and must be dispatched
+    without waiting for more bytes from the peer.  Alone, as the last thing the peer sends, and while a handler waits in a nested
+    call whose answer follows."""
+    out = []
+    for tr in ("tcp", "udp"):
+        for q in ((16, 0) if rng is None else (rng.choice([0, 1, 16]),)):
+            out += [
+                "scn %s %d 0 0 mon:1:r settle" % (tr, q),
+                "scn %s %d 0 0 arrive:1:r mon:2:r mon:3:r settle" % (tr, q),
+                "scn %s %d 0 0 mon:1:g1 resp:1 mon:2:r settle" % (tr, q),
+                "scn %s %d 0 0 arrive:1:g1 mon:2:g2 resp:2 resp:1 settle" % (tr, q),
+            ]
+    return out
+
+
 # one discovery of a real udp.Server over a loopback socket each (real time, about 1.6 s per line): the receiver callback issues a
 # blocking request on the responder's connection; order of the responder's messages after it
 DISCOVERY = ["disc ack-d2-sep", "disc d2-ack-sep", "disc ack-sep-d2", "disc d2-pig"]
@@ -360,7 +377,7 @@ def corpus_lines():
 def gen_lines(ctx):
     rng = random.Random(ctx.seed * 7727 + 11)
     L = [(l, True) for l in corpus_lines() + FIXED + stale_family() + requeue_family() + callback_family() + framesize_family()
-         + empty_family() + midclash_family() + sametoken_family() + dedup_family() + DUPLOCK + DISCOVERY]
+         + empty_family() + midclash_family() + sametoken_family() + dedup_family() + monitor_family() + DUPLOCK + DISCOVERY]
     if ctx.tier == "thorough":
         L += [(l, True) for l in DUPLOCK_THOROUGH]
     for _ in range(20 if ctx.tier == "thorough" else 2):
